@@ -208,6 +208,21 @@ func (w *World) checkCommitted(h int64, res *BlockResult, block *tmtypes.Block, 
 		seen := map[Addr]bool{}
 		wAt := m.StateAt(h)
 		for _, a := range accts {
+			if len(a.Address) < 20 {
+				// a short (or absent) receiver field is zero-padded into the same ledger key as the 20-byte address
+				// with those leading bytes: the record created for a rejected tx with an absent receiver IS the
+				// record of the zero address (to which transfers are allowed), only its stored address field is
+				// short. It is judged as that account; an empty one that the model does not know is no account.
+				var pa Addr
+				copy(pa[:], a.Address)
+				empty := a.Balance.Sign() == 0 && a.Nonce == 0 && a.Name == "" && len(a.Code) == 0
+				if empty && !wAt.Exist(common.Address(pa)) {
+					w.Probes.Hit("acct.empty-record-malformed-address")
+					continue
+				}
+				w.Probes.Hit("acct.short-address-record-is-padded-account")
+				a.Address = pa[:]
+			}
 			if len(a.Address) != 20 {
 				// a rejected tx with a malformed receiver leaves an empty record under the malformed key (the
 				// receiver is looked up or created before validation): unobservable through any query and not an
@@ -322,6 +337,27 @@ func (w *World) checkCommitted(h int64, res *BlockResult, block *tmtypes.Block, 
 		if q, err := L.Query("stakes/total_power", nil, h); err == nil && q.Code == 0 {
 			if n, err := strconv.ParseInt(string(q.Value), 10, 64); err != nil || n != sumBonded {
 				w.violate("stake.totalquery", []string{"C11"}, h, "stakes/total_power answers %s, bonded sum is %d", q.Value, sumBonded)
+			}
+		} else if err != nil {
+			return err
+		}
+		// voting power query, judged only at the height just committed (it is computed with the live
+		// parameters, see S12): the sum of the total powers of the delegatees block execution will select.
+		// The sum over the top seats is the same however ties at the cut are broken.
+		if q, err := L.Query("stakes/voting_power", nil, h); err == nil && q.Code == 0 {
+			cs := snap.Candidates(snap.Gov.MinValidatorStake)
+			want := int64(0)
+			for i, c := range cs {
+				if i >= int(snap.Gov.MaxValidatorCnt) {
+					break
+				}
+				want += c.Power
+			}
+			if n, err := strconv.ParseInt(string(q.Value), 10, 64); err != nil || n != want {
+				w.violate("stake.votingquery", []string{"C11"}, h, "stakes/voting_power answers %s, the selected validators' total power is %d", q.Value, want)
+			}
+			if len(cs) < len(snap.Delegs) {
+				w.Probes.Hit("stake.delegatee-below-min-self")
 			}
 		} else if err != nil {
 			return err
@@ -692,8 +728,25 @@ func (w *World) checkValidators(h int64) {
 	for _, c := range cands {
 		candPower[c.Addr] = c.Power
 	}
+	props := []string{"C10"}
 	fail := func(f string, a ...interface{}) {
-		w.violate("valset", []string{"C10"}, h, "%s; engine set %v; candidates %v seats %d", fmt.Sprintf(f, a...), fmtSet(got), cands, seats)
+		w.violate("valset", props, h, "%s; engine set %v; candidates %v seats %d", fmt.Sprintf(f, a...), fmtSet(got), cands, seats)
+	}
+	// voting power the engine holds for somebody beyond what is bonded to them: power that was released
+	// (or never bonded) still votes
+	var gotAddrs []Addr
+	for a := range got {
+		gotAddrs = append(gotAddrs, a)
+	}
+	sort.Slice(gotAddrs, func(i, j int) bool { return bytes.Compare(gotAddrs[i][:], gotAddrs[j][:]) < 0 })
+	for _, a := range gotAddrs {
+		bonded := int64(0)
+		if d := prev.Delegs[a]; d != nil {
+			bonded = d.Total()
+		}
+		if got[a] > bonded {
+			props = []string{"C10", "C12"}
+		}
 	}
 	want := len(cands)
 	if want > seats {
@@ -707,7 +760,8 @@ func (w *World) checkValidators(h int64) {
 		fail("size %d, expected %d", len(got), want)
 		return
 	}
-	for a, p := range got {
+	for _, a := range gotAddrs {
+		p := got[a]
 		cp, ok := candPower[a]
 		if !ok {
 			fail("%s is a validator but does not qualify", a.Hex())
